@@ -38,7 +38,11 @@ type Thread struct {
 	spin   bool
 	gid    int64
 	steps  int
+	done   atomic.Bool // set by the thread itself when it reaches a terminal site / returns
 }
+
+// Done reports (safely from any goroutine) whether the thread has ended.
+func (t *Thread) Done() bool { return t.done.Load() }
 
 // Step is one entry of the schedule trace: thread T was resumed from Site.
 type Step struct {
@@ -51,6 +55,7 @@ type evKind int
 const (
 	evYield evKind = iota
 	evFinish
+	evBlocking // the thread announces that it is about to block outside the scheduler's control
 )
 
 type event struct {
@@ -106,9 +111,10 @@ type Sched struct {
 	// MaxSteps bounds a case.
 	MaxSteps int
 	// IdleSites: resuming a thread parked at one of these sites means "wait
-	// for the next external event (a tick)"; such a thread is only chosen
-	// when the choice says so, never as the forced continuation.
-	timer *time.Timer
+	// for the next external event (a tick)"; such threads are listed last, so
+	// the default choice 0 never spins on them while anything else can run.
+	IdleSites map[string]bool
+	timer     *time.Timer
 }
 
 // New creates a scheduler driven by choices. Choice semantics: at each
@@ -148,6 +154,7 @@ func (s *Sched) Go(name string, fn func()) *Thread {
 			s.mu.Lock()
 			delete(s.byGID, g)
 			s.mu.Unlock()
+			t.done.Store(true)
 			s.events <- event{t, evFinish}
 		}()
 		close(ready)
@@ -201,7 +208,15 @@ func (s *Sched) park(t *Thread, site string, try func() bool) {
 		delete(s.byGID, t.gid)
 		s.mu.Unlock()
 		t.site = site
+		t.done.Store(true)
 		s.events <- event{t, evFinish}
+		return
+	}
+	if strings.HasSuffix(site, ":blocking") {
+		// the thread is about to wait for other threads (e.g. a WaitGroup): do not
+		// park it, tell the scheduler to go on without waiting for Tau
+		t.site = site
+		s.events <- event{t, evBlocking}
 		return
 	}
 	t.site = site
@@ -267,6 +282,9 @@ func (s *Sched) apply(e event) {
 		e.t.state = stParked
 	case evFinish:
 		e.t.state = stFinished
+	case evBlocking:
+		e.t.state = stDetached
+		s.detaches++
 	}
 }
 
@@ -293,6 +311,8 @@ func (s *Sched) Run() Result {
 	s.timer = time.NewTimer(time.Hour)
 	defer s.timer.Stop()
 	var cur *Thread
+	var lastStepped *Thread
+	waited := 0
 	steps := 0
 	spinOnly := 0
 	var res Result
@@ -312,6 +332,7 @@ func (s *Sched) Run() Result {
 		allDone := true
 		detached := 0
 		nonSpin := false
+		spinWaiting := 0
 		for _, t := range threads {
 			switch t.state {
 			case stFinished:
@@ -325,6 +346,12 @@ func (s *Sched) Run() Result {
 			if t.try != nil && !t.try() {
 				continue // still blocked on its lock
 			}
+			if t.spin && lastStepped == t {
+				// a busy-waiting thread can only see a change after some other
+				// thread has made a step (or while a thread runs outside our control)
+				spinWaiting++
+				continue
+			}
 			runnable = append(runnable, t)
 			if !t.spin {
 				nonSpin = true
@@ -332,6 +359,14 @@ func (s *Sched) Run() Result {
 		}
 		if allDone {
 			break
+		}
+		if len(runnable) == 0 && spinWaiting > 0 && detached > 0 {
+			// busy-waiters may be waiting for a thread that runs outside our control
+			time.Sleep(20 * time.Microsecond)
+			lastStepped = nil
+			if waited++; waited < 200000 {
+				continue
+			}
 		}
 		if len(runnable) == 0 || (!nonSpin && spinOnly > 2000) {
 			if detached > 0 {
@@ -371,6 +406,20 @@ func (s *Sched) Run() Result {
 				}
 			}
 		}
+		{
+			var busy, idle, spin []*Thread
+			for _, t := range runnable {
+				switch {
+				case t.spin:
+					spin = append(spin, t)
+				case s.IdleSites[t.site]:
+					idle = append(idle, t)
+				default:
+					busy = append(busy, t)
+				}
+			}
+			runnable = append(append(busy, idle...), spin...)
+		}
 		c := s.nextChoice()
 		if c >= len(runnable) {
 			c = 0
@@ -380,6 +429,7 @@ func (s *Sched) Run() Result {
 			s.switches++
 		}
 		cur = t
+		lastStepped = t
 		steps++
 		t.steps++
 		s.trace = append(s.trace, Step{T: t.ID, Site: t.site})
@@ -562,3 +612,14 @@ func (f *Free) Yield(site string) {
 }
 
 func (f *Free) Lock(try func() bool, site string) { f.Yield(site) }
+
+// Adopted returns the adopted threads.
+func (s *Sched) Adopted() []*Thread {
+	var out []*Thread
+	for _, t := range s.snapshotThreads() {
+		if t.Adopted {
+			out = append(out, t)
+		}
+	}
+	return out
+}
